@@ -126,7 +126,15 @@ pub fn hostile_seek(rng: &mut Rng) -> u64 {
             let base = (64u64 << 32) as i128 + (j as i128) * 64 + rng.below(64) as i128;
             base as u64
         }
-        4 => (1u64 << 38) + rng.below(1 << 20),
+        4 => {
+            if rng.chance(1, 2) {
+                // block counter 2^31 (the signed-compare trap in SIMD counter arithmetic)
+                let j = rng.below(41) as i64 - 20;
+                ((64u64 << 31) as i128 + (j as i128) * 64 + rng.below(64) as i128) as u64
+            } else {
+                (1u64 << 38) + rng.below(1 << 20)
+            }
+        }
         5 => (1u64 << 40) + 3,
         6 => 1u64 << 63,
         7 => 64 * rng.below(1 << 40) + rng.below(64),
